@@ -31,7 +31,7 @@ def run(v, tier, rnd):
     vlib.cargo_build(["rt-driver"])
     mc = vlib.tlc("UnionFind", cfg="UnionFind_4" if thorough else "UnionFind_3", name="c05-uf", workers=4, timeout=3000, heap="8g")
     seqs = mc["prints"].get("REPLAY", [])
-    cap = 60000 if thorough else 6000
+    cap = 15000 if thorough else 6000
     chosen = seqs if len(seqs) <= cap else rnd.sample(seqs, cap)
     cases = [{"id": i + 1, "ops": ops} for i, ops in enumerate(chosen)]
     res1 = execute_and_validate(v, cases, "c05-uf-exh")
